@@ -428,6 +428,17 @@ pub fn c10(a: &Args) -> i32 {
         let srv = start("writer", opts, &rt);
         let n = 50usize;
         let complete = produced(n);
+        // the two BEVE file outputs (pull_to_beve_file: decompressed; pull_to_beve_zst_file: the compressed stream as is)
+        // exist for compressed BEVE producers only
+        let bsrv = if compu == 1 { Some(start("value", opts, &rt)) } else { None };
+        let (beve_logical, beve_compressed): (Vec<u8>, Vec<u8>) = match &bsrv {
+            Some(b) => {
+                let c = Client::connect(b.addr).unwrap();
+                let e = raw_pull(&c, &format!("n={n},w=1,fail=-1,ps=0"), 0, None);
+                (logical("value", n), unhex(e["bytes"].as_str().unwrap_or("")))
+            }
+            None => (vec![], vec![]),
+        };
         let exe = std::env::current_exe().unwrap();
         let mut run = |scenario: &str, fault: Value, pre_exists: bool, puller: &str, addr: std::net::SocketAddr, resource: &str, out: &mut util::NdJson| {
             case_id += 1;
@@ -438,9 +449,12 @@ pub fn c10(a: &Args) -> i32 {
             // every other case starts with a stale, longer <dest>.svspart left behind by an earlier killed pull
             // (only where the pull must succeed: a pull that fails before creating its temp file rightly leaves a foreign file alone)
             if case_id % 2 == 0 && ["complete", "verifier_accepts", "trailer_ok"].contains(&scenario) { std::fs::write(tmp_of(&dest), vec![0x5A; 4 * n]).unwrap(); }
-            let want_complete: Vec<u8> = if scenario == "trailer_ok" || scenario == "trailer_reject" { complete[..n - 8].to_vec() } else { complete.clone() };
+            let want_complete: Vec<u8> = if puller == "beve_file" { beve_logical.clone() } else if puller == "beve_zst_file" { beve_compressed.clone() }
+                else if scenario == "trailer_ok" || scenario == "trailer_reject" { complete[..n - 8].to_vec() } else { complete.clone() };
             let res: Result<(), String> = match puller {
                 "pull_to_file" => Client::connect(addr).map_err(|e| e.to_string()).and_then(|c| svs::pull_to_file(&c, resource, &dest).map_err(|e| e.to_string())),
+                "beve_file" => Client::connect(addr).map_err(|e| e.to_string()).and_then(|c| svs::pull_to_beve_file(&c, resource, &dest).map_err(|e| e.to_string())),
+                "beve_zst_file" => Client::connect(addr).map_err(|e| e.to_string()).and_then(|c| svs::pull_to_beve_zst_file(&c, resource, &dest).map_err(|e| e.to_string())),
                 "pull_to_file_async" => rt.block_on(async { let c = AsyncClient::connect(addr).await.map_err(|e| e.to_string())?; svs::pull_to_file_async(&c, resource, &dest).await.map(|_| ()).map_err(|e| e.to_string()) }),
                 "verified_reject" | "verified_accept" => rt.block_on(async {
                     let c = AsyncClient::connect(addr).await.map_err(|e| e.to_string())?;
@@ -479,6 +493,14 @@ pub fn c10(a: &Args) -> i32 {
                 for f in fails { run("producer_failure", json!(f), pre, puller, srv.addr, &format!("n={n},w=7.3,fail={f},ps=0"), &mut out); cases += 1; }
                 // connection cut after the k-th response (open is response 1)
                 for k in 0..=(n / chunk + 2) { let p = proxy(srv.addr, k); run("connection_cut", json!(k), pre, puller, p, &format!("n={n},w=7.3,fail=-1,ps=0"), &mut out); cases += 1; }
+            }
+            if let Some(b) = &bsrv {
+                let res = format!("n={n},w=1,fail=-1,ps=0");
+                let nchunks = beve_compressed.len() / chunk + 3;
+                for puller in ["beve_file", "beve_zst_file"] {
+                    run("complete", json!("none"), pre, puller, b.addr, &res, &mut out); cases += 1;
+                    for k in 0..=nchunks { let p = proxy(b.addr, k); run("connection_cut", json!(k), pre, puller, p, &res, &mut out); cases += 1; }
+                }
             }
             run("verifier_accepts", json!("none"), pre, "verified_accept", srv.addr, &format!("n={n},w=5,fail=-1,ps=0"), &mut out); cases += 1;
             run("verifier_rejects", json!("none"), pre, "verified_reject", srv.addr, &format!("n={n},w=5,fail=-1,ps=0"), &mut out); cases += 1;
